@@ -3,7 +3,6 @@ package c07
 import (
 	"context"
 	"crypto/sha256"
-	"encoding/binary"
 	"fmt"
 	"os"
 	"strings"
@@ -64,13 +63,7 @@ func dbObs(d database.DB) obs {
 	return o
 }
 
-var lastAdd = time.Now()
-
 func (sc *syncCase) add(term string, js map[string]any) {
-	if os.Getenv("C07_TIMING") == "2" {
-		fmt.Fprintf(os.Stderr, "  %v %v %v\n", time.Since(lastAdd), js["op"], js["what"])
-		lastAdd = time.Now()
-	}
 	sc.steps = append(sc.steps, term)
 	sc.js = append(sc.js, js)
 }
@@ -502,6 +495,5 @@ func runSyncCase(r *vk.Run, idx int) error {
 	for k, v := range sc.stats {
 		r.Stats["dstep:"+k] += v
 	}
-	_ = binary.BigEndian
 	return nil
 }
